@@ -566,7 +566,14 @@ def run_slin_job(job, scratch):
         if m:
             hw[int(m.group(1))] = int(m.group(3))
             starts[int(m.group(1))] = int(m.group(2))
-    if "-crashpoints" in job["driver"]:   # probes are matched with the replies of read-only calls left unchecked (see the module)
+    if "-crashpoints" in job["driver"] and mod == "SimpleLin":
+        # the simple server holds a file's lock until its update is durable: a reader cannot have seen what a crash takes
+        # back, so the probes are matched with every reply checked
+        for ln in out.splitlines():
+            m = re.match(r'"UNMATCHED (\d+)"', ln.strip())
+            if m:
+                unmatched.append(int(m.group(1)))
+    elif "-crashpoints" in job["driver"]:   # kvs: probes are matched with the replies of read-only calls left unchecked (see the module, choice 14)
         out2, st2 = run_tlc(mod + ".tla", mod + ".cfg", scratch, env={"TRACE": trace, "RELAX": "1"}, timeout=job.get("tlc_timeout", 3000), xmx="6g")
         if "No error has been found" not in out2:
             raise Infra("%s search (RELAX) failed on %s:\n%s" % (mod, trace, out2[-3000:]))
@@ -1124,6 +1131,9 @@ def plan(prop, tier, seed, known):
             jobs.append({"name": "%sconccrash%d" % (cmd, i), "kind": "slin", "module": lmod, "prop": prop,
                          "driver": [cmd, "-seed", str(seed * 100 + 70 + i), "-segs", "8" if q else "16", "-steps", "4", "-sconc", str(2 + i % 2), "-disk", "2000",
                                     "-crashpoints", "-loss", "2" if q else "5"]})
+        if prop == "C17":   # a writer held up at the disk, a reader of the same file, the disk cut off as it is
+            jobs.append({"name": "simplegates", "kind": "slin", "module": "SimpleLin", "prop": prop,
+                         "driver": ["simple", "-seed", str(seed), "-segs", "1", "-sconc", "-1", "-disk", "2000", "-crashpoints"]})
         if prop == "C18":
             jobs.append({"name": "kvsgates", "kind": "slin", "module": "KvsLin", "prop": prop,
                          "driver": ["kvs", "-seed", str(seed), "-segs", "1", "-sconc", "-1", "-disk", "2000"]})
